@@ -92,7 +92,7 @@ func (srv *Server) ListenAndServe() error {
 	return err
 }
 
-func acceptTransports(ctx context.Context, listener TransportListener, c chan<- Transport) error {
+func acceptTransports(ctx context.Context, listener TransportListener, c chan Transport) error {
 	for {
 		transport, err := listener.Accept(ctx)
 		if err != nil {
@@ -104,6 +104,19 @@ func acceptTransports(ctx context.Context, listener TransportListener, c chan<- 
 			_ = transport.Close()
 			return ctx.Err()
 		case c <- transport:
+			if ctx.Err() != nil {
+				// Close may have emptied the queue just before this transport got in:
+				// nobody is going to serve what is queued now
+				for queued := true; queued; {
+					select {
+					case t := <-c:
+						_ = t.Close()
+					default:
+						queued = false
+					}
+				}
+				return ctx.Err()
+			}
 		}
 	}
 }
